@@ -110,7 +110,7 @@ partial def loopIO (h : IO.FS.Stream) (st : OSt) : IO Unit := do
       let ks := greach G st.cfg f e
       let leaves := ((ks.map (·.1)).filter (staticLeaf G st.cfg)).eraseDups
       let leaves := if staticLeaf G st.cfg e && !leaves.contains e then e :: leaves else leaves
-      IO.println s!"reach {id} keys={ks.length} leaves={showNats leaves}"
+      IO.println s!"reach {id} keys={ks.length} leaves={showNats leaves} nodes={showNats (ks.map (·.1))}"
     | _, _ => IO.println s!"bad-record reach {id}"
     loopIO h st
   | ["trace", id, ns] =>
